@@ -12,8 +12,9 @@ import (
 	"net"
 	"sort"
 	"strconv"
-	"strings"
-	"sync"
+		"sync"
+	"sync/atomic"
+	"time"
 
 	"github.com/spikeekips/mitum/base"
 	"github.com/spikeekips/mitum/network/quicmemberlist"
@@ -22,8 +23,8 @@ import (
 )
 
 const (
-	nAddrs = 10 // index 9 never joins
-	nNodes = 4  // index 3 never joins
+	nAddrs = 10 // index 9 = the local member of the Memberlist (joins rarely)
+	nNodes = 4  // index 3 = the local node
 )
 
 var (
@@ -113,37 +114,70 @@ type replay struct {
 
 type mem struct{ addr, node, tag int }
 
-// vmember is a Member with an arbitrary UDP address (NewMember refuses some of them).
+// vmember is the Member the harness hands to the member table: an arbitrary UDP address (NewMember refuses
+// some of them), an arbitrary name (the local member's name), the tag (identity of the object) and an
+// optional hook called when the table asks for the node address (forced schedules).
 type vmember struct {
 	quicmemberlist.BaseMember
 	addr *net.UDPAddr
+	name string
+	tag  int
+	hook *parkHook
 }
 
 func (m vmember) Addr() *net.UDPAddr { return m.addr }
+func (m vmember) Name() string       { return m.name }
+func (m vmember) Address() base.Address {
+	if m.hook != nil {
+		m.hook.hit()
+	}
+	return m.BaseMember.Address()
+}
+
+// parkHook: when armed, the first caller runs f and waits (bounded) for it.
+type parkHook struct {
+	armed int32
+	f     func()
+}
+
+func (h *parkHook) hit() {
+	if atomic.CompareAndSwapInt32(&h.armed, 1, 0) {
+		h.f()
+	}
+}
 
 var dummyAddr = udp(net.IP{127, 0, 0, 9}, 1, "")
 
-func newMember(addr, node, tag int) quicmemberlist.Member { return newMemberV(addr, 0, node, tag) }
+const localIdentity = 9 // in memberlist mode this identity is the Memberlist's local member (node 3)
 
-func newMemberV(addr, v, node, tag int) quicmemberlist.Member {
+func localName() string { return addrOf(localIdentity, 0).String() }
+
+func newMember(addr, node, tag int) quicmemberlist.Member { return newMemberV(addr, 0, node, tag, false) }
+
+// newMemberV: islocal = the member carries the local member's name (Memberlist mode, identity 9).
+func newMemberV(addr, v, node, tag int, islocal bool) vmember {
 	a := addrOf(addr, v)
 	name := "t" + strconv.Itoa(tag)
-	if m, err := quicmemberlist.NewMember(name, a, nodes[node], pubs[node], "", true); err == nil {
-		return m
+	if islocal {
+		name = localName()
 	}
-	b, err := quicmemberlist.NewMember(name, dummyAddr, nodes[node], pubs[node], "", true)
+	b, err := quicmemberlist.NewMember(name, a, nodes[node], pubs[node], "", true)
 	if err != nil {
-		panic(err)
+		b, err = quicmemberlist.NewMember(name, dummyAddr, nodes[node], pubs[node], "", true)
+		if err != nil {
+			panic(err)
+		}
 	}
-	return vmember{BaseMember: b, addr: a}
+	return vmember{BaseMember: b, addr: a, name: name, tag: tag}
 }
 
 func memOf(m quicmemberlist.Member) mem {
-	t, err := strconv.Atoi(strings.TrimPrefix(m.Name(), "t"))
-	if err != nil {
-		panic(err)
+	switch t := m.(type) {
+	case vmember:
+		return mem{addrIndex(t.Addr()), nodeIndex(t.BaseMember.Address()), t.tag}
+	default:
+		return mem{addrIndex(m.Addr()), nodeIndex(m.Address()), -1}
 	}
-	return mem{addrIndex(m.Addr()), nodeIndex(m.Address()), t}
 }
 
 type impl struct {
@@ -156,7 +190,7 @@ func newImpl(mode string) *impl {
 		return &impl{pool: quicmemberlist.NewVerifMembersPool()}
 	}
 	enc := jsonenc.NewEncoder()
-	bind := addrOf(9, 0)
+	bind := addrOf(localIdentity, 0)
 	local, err := quicmemberlist.NewMember(bind.String(), bind, nodes[3], pubs[3], bind.String(), true)
 	if err != nil {
 		panic(err)
@@ -199,7 +233,7 @@ func runHistory(res *vh.Result, rp replay, verbose bool) string {
 		var opcode uint64
 		switch op.Kind {
 		case "set":
-			m := newMemberV(op.Addr, op.V, op.Node, op.Tag)
+			m := newMemberV(op.Addr, op.V, op.Node, op.Tag, im.srv != nil && op.Addr == localIdentity)
 			_, was := ref[op.Addr]
 			if im.srv != nil {
 				before := im.pool.Len()
@@ -220,7 +254,7 @@ func runHistory(res *vh.Result, rp replay, verbose bool) string {
 			_, was := ref[op.Addr]
 			if im.srv != nil {
 				before := im.pool.Len()
-				im.srv.VerifWhenLeft(newMemberV(op.Addr, op.V, 0, 0))
+				im.srv.VerifWhenLeft(newMemberV(op.Addr, op.V, 0, 0, op.Addr == localIdentity))
 				ret = im.pool.Len() < before
 			} else {
 				var err error
@@ -428,6 +462,9 @@ func genHistory(r *vh.Rand, tag *int) replay {
 					}
 				}
 			}
+			if r.Chance(1, 5) { // the Memberlist's local member (identity 9, node 3) joins itself
+				op.Addr = localIdentity
+			}
 			op.Node = op.Addr / 3
 			if r.Chance(1, 7) { // the address joins as another node
 				op.Node = r.Intn(3)
@@ -478,6 +515,10 @@ func corpus() []replay {
 			replay{mode, []Op{s(0, 0, 1), s(0, 1, 2), rm(0)}},               // the address re-joins as another node
 			replay{mode, []Op{s(0, 0, 1), s(3, 1, 2), {Kind: "empty"}, s(0, 0, 3)}},
 			replay{mode, []Op{rm(0), s(0, 0, 1), rm(0), rm(0)}},
+			// the local member joins / leaves alone, and after all remotes left (isJoined false at the leave)
+			replay{mode, []Op{s(9, 3, 1), rm(9)}},
+			replay{mode, []Op{s(9, 3, 1), s(0, 0, 2), s(3, 1, 3), rm(0), rm(3), rm(9), s(9, 3, 4), rm(9), rm(9)}},
+			replay{mode, []Op{s(0, 0, 1), s(9, 3, 2), rm(0), s(9, 3, 3), rm(9), s(1, 0, 4), rm(1)}},
 			// addresses whose textual forms differ: zoned IPv6 leaves / re-joins under another zone,
 			// IPv4 vs IPv4-mapped, nil vs empty IP, unspecified
 			replay{mode, []Op{s(1, 0, 1), sv(2, 0, 0, 2), rmv(2, 0), sv(2, 0, 0, 3), sv(2, 1, 0, 4), rmv(2, 2), sv(2, 2, 0, 5), rmv(2, 1)}},
@@ -506,9 +547,9 @@ func concurrent(res *vh.Result, r *vh.Rand, rounds int) {
 				for i := 0; i < 60; i++ {
 					a := rr.Intn(9)
 					if rr.Chance(3, 5) {
-						im.srv.VerifWhenJoined(newMemberV(a, rr.Intn(4), a/3, g*1000+i+1))
+						im.srv.VerifWhenJoined(newMemberV(a, rr.Intn(4), a/3, g*1000+i+1, false))
 					} else {
-						im.srv.VerifWhenLeft(newMemberV(a, rr.Intn(4), 0, 0))
+						im.srv.VerifWhenLeft(newMemberV(a, rr.Intn(4), 0, 0, false))
 					}
 				}
 			}(g)
@@ -554,6 +595,113 @@ func concurrent(res *vh.Result, r *vh.Rand, rounds int) {
 	}
 }
 
+// consistent checks, at quiescence, that the table agrees with itself: an address is in the address index
+// exactly when it is (once, as the same member) in the list of that member's node; Len counts the index.
+func consistent(res *vh.Result, pool *quicmemberlist.VerifMembersPool, class, what string, rp any) {
+	inlists := map[int][]mem{}
+	for n := 0; n < nNodes; n++ {
+		for _, m := range pool.NodeMembers(nodes[n]) {
+			g := memOf(m)
+			if g.node != n {
+				failc(res, class, what+fmt.Sprintf(": list of node %d holds %+v", n, g), rp)
+			}
+			inlists[g.addr] = append(inlists[g.addr], g)
+		}
+	}
+	present := 0
+	for a := 0; a < nAddrs; a++ {
+		ex := pool.Exists(addrOf(a, a))
+		gm, found := pool.Get(addrOf(a, a+1))
+		l := inlists[a]
+		switch {
+		case ex != found || (gm != nil) != found:
+			failc(res, class, what+fmt.Sprintf(": addr %d Exists=%v Get found=%v", a, ex, found), rp)
+		case ex && (len(l) != 1 || l[0] != memOf(gm)):
+			failc(res, class, what+fmt.Sprintf(": present member %+v of addr %d is in the per-node lists as %v", memOf(gm), a, l), rp)
+		case !ex && len(l) != 0:
+			failc(res, class, what+fmt.Sprintf(": addr %d is absent (Exists=false, Len=%d) but still in the per-node lists: %v", a, pool.Len(), l), rp)
+		}
+		if ex {
+			present++
+		}
+	}
+	if pool.Len() != present {
+		failc(res, class, what+fmt.Sprintf(": Len()=%d, %d addresses exist", pool.Len(), present), rp)
+	}
+}
+
+// poolRaces: joins / re-joins / leaves of the SAME addresses racing directly on the member table (not through
+// the Memberlist handlers). Every address keeps its own node, so only operations on one address race on a
+// per-node list. (a) forced schedule: while a re-join looks at the member it replaces, the leave of the same
+// address arrives; (b) free-running goroutines. Oracle at quiescence: `consistent`.
+func poolRaces(res *vh.Result, r *vh.Rand, rounds int) {
+	// (a) forced
+	for _, a := range []int{0, 2, 7} {
+		for _, othernode := range []bool{false, true} {
+			pool := quicmemberlist.NewVerifMembersPool()
+			rp := map[string]any{"forced_leave_while_rejoin_addr": a, "rejoin_under_other_node": othernode}
+			done := make(chan struct{})
+			first := newMemberV(a, 0, a/3, 1, false)
+			first.hook = &parkHook{f: func() {
+				go func() {
+					defer close(done)
+					_, _ = pool.Remove(addrOf(a, 1))
+				}()
+				select {
+				case <-done:
+				case <-time.After(30 * time.Millisecond): // the leave waits for the re-join: fine
+				}
+			}}
+			pool.Set(first)
+			atomic.StoreInt32(&first.hook.armed, 1)
+			n2 := a / 3
+			if othernode {
+				n2 = (a/3 + 1) % 3
+			}
+			pool.Set(newMemberV(a, 2, n2, 2, false))
+			if atomic.LoadInt32(&first.hook.armed) == 0 {
+				select {
+				case <-done:
+				case <-time.After(3 * time.Second):
+					failc(res, "pool-race-stuck", "leave did not finish", rp)
+				}
+			}
+			consistent(res, pool, "pool-race-inconsistent", "leave while re-join (forced schedule)", rp)
+			res.Evaluations++
+			res.Dist("pool_forced_schedules")
+		}
+	}
+	// (b) free-running
+	own := []int{0, 3, 6} // one address per node
+	for round := 0; round < rounds; round++ {
+		pool := quicmemberlist.NewVerifMembersPool()
+		seeds := make([]uint64, 8)
+		for i := range seeds {
+			seeds[i] = r.U64()
+		}
+		var wg sync.WaitGroup
+		for g := range seeds {
+			wg.Add(1)
+			go func(g int) {
+				defer wg.Done()
+				rr := vh.NewRand(seeds[g])
+				for k := 0; k < 150; k++ {
+					a := own[rr.Intn(len(own))]
+					if rr.Chance(3, 5) {
+						pool.Set(newMemberV(a, rr.Intn(3), a/3, g*1000+k+1, false))
+					} else {
+						_, _ = pool.Remove(addrOf(a, rr.Intn(3)))
+					}
+				}
+			}(g)
+		}
+		wg.Wait()
+		consistent(res, pool, "pool-race-inconsistent", "free-running joins/leaves of the same addresses", map[string]any{"pool_race_seeds": seeds})
+		res.Evaluations++
+		res.Dist("pool_race_rounds")
+	}
+}
+
 func main() {
 	o := vh.ParseFlags()
 	setup()
@@ -590,6 +738,7 @@ func main() {
 		}
 	}
 	concurrent(res, r, o.Pick(20, 400))
+	poolRaces(res, r, o.Pick(150, 3000))
 	res.ModelCases = cases.Len()
 	if err := cases.Write(o.Out); err != nil {
 		panic(err)
